@@ -5,17 +5,17 @@ from ..report import Report
 
 def run(tier, seed):
     rep = Report("C09", tier, seed, "other")
-    try:
-        from ..propbase import deductive
-        import contracts.inline as CI  # noqa: F401
-        deductive(rep, "C09", CI.C09_FUNCS, "contracts.inline")
-    except ImportError:
-        pass
+    from ..propbase import deductive
+    import contracts.inline as CI
+    deductive(rep, "C09", CI.C09_FUNCS, "contracts.inline")
+    from .. import reads
+    reads.add_order_obligations(rep, "C09")
     gen_universe(rep, "vf.oracles2:c09_literal", "vf.oracles2:gen_c09", tier, "MarkdownIt.render", "esc(t) and charref(t) render as the literal, HTML-escaped t in 7 inline contexts",
                  ["commonmark", "cm+table+strike"], "all strings t of <= k characters over a 28-symbol alphabet (ASCII punctuation, letters, non-ASCII, C0), both encodings, 7 templates; distinct = distinct t",
                  "texts x {backslash, character reference} x {paragraph, heading, emphasis, link text, image alt, link title, table cell}")
-    rep.explanation = ("Mixed, mostly bounded: the end-to-end statement is checked on the real render over templates x texts. Deductive part (when contracts.inline is present): the escape "
-                       "rule pushes one text_special with the escaped character and advances by 2; text_join folds all specials including image children.")
+    rep.explanation = ("Mixed. Deductive: the escape rule (pyvc, all paths): fires only on a backslash, for an ASCII-punctuation successor pushes exactly one text_special whose content is that character and advances by 2, "
+                       "keeps backslash + character otherwise, never touches level/posMax, is pure when silent or failing; ORDER: text_join runs last in the core chain. Bounded: the end-to-end statement on the real render over templates x texts "
+                       "(entity rule, text_join folding, renderer escaping, title unescaping are covered there).")
     rep.trusted_base = STD_TRUST
     rep.assumptions = ["table cell template written with padding blanks (`| e |`), see DESIGN.md 5 #11"]
     return rep
